@@ -972,7 +972,45 @@ func (u *Unit) havocOneForCall(env *Env, name string, old Term) {
 // ---------------------------------------------------------------------------------------------
 // interface method calls: by the interface's contract block if present, else an uninterpreted pure function
 
+// "opt guarded=<field>:<lock>": every method call on self.<field> must happen while self.<lock> is held exclusively
+func (u *Unit) guardedCall(c *ast.CallExpr, se *ast.SelectorExpr, env *Env) bool {
+	if u.Block == nil || u.Block.Opts["guarded"] == "" {
+		return false
+	}
+	parts := strings.SplitN(u.Block.Opts["guarded"], ":", 2)
+	if len(parts) != 2 {
+		return false
+	}
+	fse, ok := unparen(se.X).(*ast.SelectorExpr)
+	if !ok || fse.Sel.Name != parts[0] {
+		return false
+	}
+	lockKey := u.exprText(fse.X) + "." + parts[1]
+	u.assert(env, "perm/exclusive/"+u.exprText(se), "perm", c.Pos(), "call on the guarded field "+u.exprText(fse)+" requires "+lockKey+" held exclusively (Lock, not RLock)", boolTerm(env.held[lockKey] == "W"))
+	env.delegated++
+	return true
+}
+
 func (u *Unit) callInterfaceMethod(c *ast.CallExpr, se *ast.SelectorExpr, sel *types.Selection, env *Env) []Outcome {
+	guarded := u.guardedCall(c, se, env)
+	outs := u.callInterfaceMethod1(c, se, sel, env)
+	if guarded && len(outs) == 1 && outs[0].kind == oReturn {
+		for i, v := range outs[0].vals {
+			outs[0].env.alias[fmt.Sprintf("_delegated%d", i)] = v.Term
+			outs[0].env.aliasTy[fmt.Sprintf("_delegated%d", i)] = v.Ty
+		}
+		for i, a := range c.Args {
+			if tv, ok := u.Info.Types[a]; ok && !tv.IsType() {
+				av := u.eval(a, outs[0].env)
+				outs[0].env.alias[fmt.Sprintf("_delegarg%d", i)] = av.Term
+				outs[0].env.aliasTy[fmt.Sprintf("_delegarg%d", i)] = av.Ty
+			}
+		}
+	}
+	return outs
+}
+
+func (u *Unit) callInterfaceMethod1(c *ast.CallExpr, se *ast.SelectorExpr, sel *types.Selection, env *Env) []Outcome {
 	recv := u.eval(se.X, env)
 	m := sel.Obj().(*types.Func)
 	sig := m.Type().(*types.Signature)
